@@ -3,7 +3,7 @@ PLAN = dict(
     pkg="c12", level="exploration",
     rule=("call: one Decode* call on an enumerated input (every initial byte x argument patterns x content length classes x method); "
           "roundtrip: encoder output decoded again; stream: concatenated items (any head width) decoded by a drawn call sequence with a "
-          "position-tracking reader. Oracle = RFC 8949 head/length semantics recomputed by refcbor: success iff well-formed item of the "
+          "position-tracking reader; resume: one Decoder on a reader that fails once (error or io.EOF) inside an item head or string and then carries on: the call meeting the fault must fail, every later call that succeeds must return the value of the item at the reader's position and consume exactly it. Oracle = RFC 8949 head/length semantics recomputed by refcbor: success iff well-formed item of the "
           "requested major type, exact value, exact consumption. Non-trivial: the head parses (call), the encoder accepted the value "
           "(roundtrip), at least two successful calls (stream); distinct by fingerprint of the case."),
     assumptions=TRUSTED + ["On a failed call the reader position is unspecified and not compared"],
@@ -11,6 +11,7 @@ PLAN = dict(
         dict(name="exh", run="^(TestExhaustiveHeads|TestExhaustiveRoundTripBoundaries|TestCorpus)$"),
         dict(name="rt", run="^TestPropRoundTrip$", checks=(3000, 300000), shards=(1, 4)),
         dict(name="stream", run="^TestPropStream$", checks=(5000, 1000000), shards=(1, 16)),
+        dict(name="resume", run="^TestPropResume$", checks=(5000, 500000), shards=(1, 8)),
     ],
     technique="exhaustive enumeration of CBOR heads x content classes + rapid round trips and call histories, differential against an independent RFC 8949 head parser",
     level_text=("Exhaustive over every initial byte x argument pattern class x content length class x Decode method (finite space, enumerated "
@@ -18,5 +19,5 @@ PLAN = dict(
                 "is an independent RFC 8949 head/length semantics. Exploration level: the enumerated classes are the ones where a head parser "
                 "can go wrong (width classes, reserved/indefinite info, truncation, 2^63 lengths, UTF-8)."),
     level_note=NOTE_BASE,
-    require=[("call", "expect-accept"), ("call", "expect-reject"), ("stream", "has-nonshortest-head")],
+    require=[("call", "expect-accept"), ("call", "expect-reject"), ("stream", "has-nonshortest-head"), ("resume", "decoded-after-error")],
 )
